@@ -19,6 +19,10 @@ Monitors
   lift.refusal        absent type / type of a descendant only / foreign or descendant sequence / location without parent
                       -> NoSuchAncestorException; location with a gap to lift_over_to_sequence -> ValueError; root level
                       asked for its grandparent -> refused; never a Location
+  lift.history        a look-alike hierarchy that shares levels j..d with the full one (same ids, types, strings, placements) but has
+                      no ancestors below level j, built before or after the full hierarchy in the same process: its children lift
+                      to levels j..d as the model says and are refused below j - and the full hierarchy, built second, still
+                      reaches every level (the process-wide Parent cache must not hand one hierarchy's ancestry to the other)
   lift.wellformed     every lifted Location is structurally well-formed (locmon.wellformed + span_consistent)
   chunk.lift          AbstractInterval.liftover_location_to_seq_chunk_parent(L, seq_chunk_to_parent(...)) (and
                       initialize_location) == the bases of L inside [cs, ce) in chunk coordinates, chunk on either strand
@@ -88,7 +92,7 @@ EXHAUSTIVE_SCOPE = {t: (f"depth 1: root {s['G1']}, <= {s['K1']} blocks, children
                         f"chunks: all windows over {s['GC']} bases x locations <= {s['KC']} blocks; all windows over {s['NG']} random genome(s) of {s['GR']} bases")
                     for t, s in SCOPE.items()}
 FLOOR = {"quick": 20000, "thorough": 100000}
-REQUIRED_MONITORS = ["lift.by-type", "lift.by-sequence", "lift.child-to-parent", "lift.sequence", "lift.ancestor-search", "lift.refusal", "lift.wellformed",
+REQUIRED_MONITORS = ["lift.history", "lift.by-type", "lift.by-sequence", "lift.child-to-parent", "lift.sequence", "lift.ancestor-search", "lift.refusal", "lift.wellformed",
                      "chunk.lift", "chunk.sequence", "chunk.back", "chunk.rechunk", "chunk.whole", "chunk.refusal"]
 REACH = [
     # (location_impl first: importing inscripta.biocantor.parent.parent before the location package is circular)
@@ -234,7 +238,15 @@ def cases(spec, ctx):
             d = depth if rng.random() < 0.6 else rng.randint(0, depth)
             xb, xst = _rand_child(rng, lens[d])
             xs.append([d, xb, xst])
-        yield {"kind": "rand", "root": root, "levels": levels, "types": _rand_types(rng, depth), "mode": rng.choice(modes + ("seq",)), "xs": xs}
+        c = {"kind": "rand", "root": root, "levels": levels, "types": _rand_types(rng, depth), "mode": rng.choice(modes + ("seq",)), "xs": xs}
+        if depth >= 2:
+            # history leg: a look-alike hierarchy cut below level j0, built before or after the full one (drawn from an own stream
+            # so that the other legs see the same cases as before)
+            hr = __import__("random").Random(f"C04-lookalike:{ctx.seed}:{i}:{k}")
+            c["lookalike"] = [hr.randint(1, depth - 1), hr.random() < 0.5]
+            if not any(x[0] > c["lookalike"][0] for x in xs):
+                xs.append([depth] + list(_rand_child(hr, lens[depth])))
+        yield c
     # (d) chunks, exhaustive: every window x chunk strand; every location enumerated inside the case
     idx = 0
     gc = sc["GC"]
@@ -312,7 +324,9 @@ def _rand_chunk_loc(rng, g, cs, ce):
 class _Objs:
     """Real hierarchy for a spec.  parents[d] is what a child location on level d receives as parent=."""
 
-    def __init__(self, case, H):
+    def __init__(self, case, H, start=0):
+        """start > 0: a look-alike hierarchy whose levels start..depth are identical to the full one's (ids, types, strings,
+        placements) but whose level `start` has no parent (levels below `start` do not exist: parents[k] is None there)."""
         import inscripta.biocantor.location.location_impl  # noqa: F401  (import order: location before parent, else circular)
         from inscripta.biocantor.parent import Parent
         from inscripta.biocantor.sequence import Sequence, Alphabet
@@ -321,16 +335,21 @@ class _Objs:
         types = case["types"]
         self.alphabet = Alphabet.NT_EXTENDED_GAPPED
         self.seqs = None
+        self.start = start
         if self.mode == "seq":
-            seqs = [Sequence(H.strings[0], self.alphabet, id="L0", type=types[0])]
+            seqs = [None] * start + [Sequence(H.strings[start], self.alphabet, id=f"L{start}", type=types[start])]
             for k, (blocks, strand) in enumerate(case["levels"], 1):
+                if k <= start:
+                    continue
                 placing = G.build([tuple(b) for b in blocks], strand, parent=seqs[-1])
                 seqs.append(Sequence(H.strings[k], self.alphabet, id=f"L{k}", type=types[k], parent=placing.parent))
             self.seqs = seqs
             self.parents = seqs
         else:
-            pars = [Parent(id="L0", sequence_type=types[0])]
+            pars = [None] * start + [Parent(id=f"L{start}", sequence_type=types[start])]
             for k, (blocks, strand) in enumerate(case["levels"], 1):
+                if k <= start:
+                    continue
                 placing = G.build([tuple(b) for b in blocks], strand)
                 pars.append(Parent(id=f"L{k}", sequence_type=types[k], parent=pars[-1].reset_location(placing)))
             self.parents = pars
@@ -510,10 +529,64 @@ def _nontrivial(levels, d, xb, xs):
     return multi or xs == "-" or len([b for b in xb if b[1] > b[0]]) > 1
 
 
+def check_truncated(ctx, H, case, T, d, xb, xs, order):
+    """History leg: T is a look-alike of the full hierarchy that starts at level T.start (same ids, types, strings and
+    placements from there on; no ancestors below).  Whatever was built or asked before in this process - in particular the
+    full hierarchy, whose Parents resemble T's in everything but their ancestry - a child on T reaches exactly the levels
+    T.start..d: lifts to them equal the composed model, everything below is refused (NoSuchAncestorException)."""
+    from inscripta.biocantor.exc import NoSuchAncestorException
+
+    types = case["types"]
+    j0 = T.start
+    xb = [tuple(b) for b in xb]
+    PX = PM.positions(xb, xs)
+    ov = PM.self_overlapping(xb)
+    X = G.build(xb, xs, parent=T.parents[d])
+    det = {"level": d, "x": xb, "xstrand": xs, "lookalike_root_level": j0, "built": order}
+    here = [t for t in types[j0: d + 1] if t is not None]
+    for t in sorted({t for t in types[:j0] if t is not None and t not in here}):
+        h, e2 = ctx.call(X.has_ancestor_of_type, t)
+        r, e = ctx.call(X.lift_over_to_first_ancestor_of_type, t)
+        ctx.check("lift.history", e2 is None and h is False and isinstance(e, NoSuchAncestorException), key=("lookalike-has-no-such-ancestor", T.mode, order),
+                  type=t, has=h, got=repr(r)[:200], exc=repr(e)[:200], **det)
+    for t in sorted(set(here)):
+        j = max(k for k in range(j0, d + 1) if types[k] == t)
+        wantP, wants = H.lift(PX, xs, d, j)
+        r, e = ctx.call(X.lift_over_to_first_ancestor_of_type, t)
+        if _cmp(ctx, "lift.history", r, e, wantP, wants, ov, ("lookalike", f"up{d - j}", T.mode, order), target=j, type=t, **det):
+            ctx.check("lift.history", _parent_is(r, f"L{j}", t), key=("lookalike-result-parent", T.mode, order), target=j, type=t,
+                      got_parent=repr(getattr(r, "parent", None))[:300], **det)
+    if T.mode == "seq":
+        for j in range(j0):
+            s = _full_sequence_of_level(H, case, j, T.alphabet)
+            h, e = ctx.call(X.has_ancestor_sequence, s)
+            ctx.check("lift.history", e is None and h is False, key=("lookalike-has-no-such-sequence", order), target=j, has=h, exc=repr(e)[:200] if e else None, **det)
+
+
+def _full_sequence_of_level(H, case, j, alphabet):
+    from inscripta.biocantor.sequence import Sequence
+
+    return Sequence(H.strings[j], alphabet, id=f"L{j}", type=case["types"][j])
+
+
 def run_hier(case, ctx):
     levels = [([tuple(b) for b in bl], st) for bl, st in case["levels"]]
     H = HM.Hier(case["root"], levels)
+    T = None
+    if case["kind"] == "rand" and H.depth >= 2 and case.get("lookalike"):
+        j0, first = case["lookalike"]
+        if first:       # look-alike built (and asked) before the full hierarchy exists
+            T = _Objs(case, H, start=j0)
+            for d, xb, xs in case["xs"]:
+                if d > j0:
+                    check_truncated(ctx, H, case, T, d, xb, xs, "lookalike-first")
     O = _Objs(case, H)
+    if case["kind"] == "rand" and H.depth >= 2 and case.get("lookalike") and T is None:
+        j0, first = case["lookalike"]
+        T = _Objs(case, H, start=j0)   # built after the full hierarchy: must not inherit its ancestry
+        for d, xb, xs in case["xs"]:
+            if d > j0:
+                check_truncated(ctx, H, case, T, d, xb, xs, "full-first")
     shape = _shape(levels)
     depth = H.depth
     if case["kind"] == "enum":
